@@ -228,3 +228,191 @@ pub fn run_iter_writers<W: std::io::Write>(seed: u64, rounds: u64, out: &mut W) 
         writeln!(out, "iterw round={} keys={} writers={} iterations={} bad={}", r, nkeys, writers, total, bad).unwrap();
     }
 }
+
+// ---------------------------------------------------------------------------------------------
+// C09 progress beside a thread that is held inside the maintenance and then leaves.
+//
+// One thread (the *holder*) builds a small history (inserts, then `invalidate_all` or a
+// time-to-live that runs out) and then reads a missing key until one of its calls runs the
+// housekeeping.  It is parked at the j-th user callback (key hash) that the maintenance makes —
+// recognisable because the key hashed is not the key of the holder's own call — which, depending
+// on j and the history, is inside the drain loop (an admission removing its victims) or in the
+// expiry phase after the loop.  Meanwhile 2–3 writers insert fresh keys until they finish or stop
+// making progress (write channel full, maintenance flag held).  Then the holder is released,
+// completes that one call and never touches the cache again.  Every writer must then finish:
+// nothing a departed thread did may leave the others waiting.  Output: one `stall …` line per
+// round and a `stall-bad …` line when writers are still blocked after the watchdog.
+// ---------------------------------------------------------------------------------------------
+
+static HOLD: std::sync::atomic::AtomicBool = std::sync::atomic::AtomicBool::new(false);
+static PARKED: std::sync::atomic::AtomicBool = std::sync::atomic::AtomicBool::new(false);
+
+thread_local! {
+    static FOREIGN: std::cell::Cell<u64> = const { std::cell::Cell::new(0) };
+    static PARK_AT: std::cell::Cell<u64> = const { std::cell::Cell::new(0) };
+    static OWN_KEY: std::cell::Cell<u64> = const { std::cell::Cell::new(u64::MAX) };
+    static LEAVE: std::cell::Cell<bool> = const { std::cell::Cell::new(false) };
+    static READING: std::cell::Cell<bool> = const { std::cell::Cell::new(false) };
+}
+
+fn stall_hook() {
+    // Only the holder's reads count: a `get` never writes to the map, so a hash of another key
+    // during it comes from the maintenance (during an insert it can also be DashMap re-hashing a
+    // shard under the shard lock).
+    if !READING.with(|c| c.get()) || CUR_KEY.with(|c| c.get()) == OWN_KEY.with(|c| c.get()) {
+        return;
+    }
+    let n = FOREIGN.with(|h| {
+        h.set(h.get() + 1);
+        h.get()
+    });
+    if n == PARK_AT.with(|p| p.get()) {
+        PARKED.store(true, Ordering::SeqCst);
+        LEAVE.with(|l| l.set(true)); // the call in which the holder was parked is its last one
+        let t0 = std::time::Instant::now();
+        while HOLD.load(Ordering::SeqCst) && t0.elapsed() < std::time::Duration::from_secs(20) {
+            std::thread::sleep(std::time::Duration::from_micros(200));
+        }
+    }
+}
+
+pub fn run_stall<W: std::io::Write>(seed: u64, rounds: u64, out: &mut W) {
+    use std::time::{Duration, Instant};
+    for r in 0..rounds {
+        let mut rng = Rng::new(splitmix(seed.wrapping_mul(15485863).wrapping_add(r)));
+        let prefill = 1 + rng.below(60);
+        let expire = 1 + rng.below(3); // 1: invalidate_all, 2: time_to_live, 3: capacity only
+        let cap: Option<u64> = match (expire, rng.below(3)) {
+            (3, _) => Some(1 + rng.below(8)),
+            (_, 0) => None,
+            (_, 1) => Some(4 + rng.below(16)),
+            _ => Some(100_000),
+        };
+        let nwriters = 2 + rng.below(2) as usize;
+        let per_writer = 300 + rng.below(600);
+        let park_at = 1 + rng.below(prefill.min(12));
+        let mut b = SCache::<VKey, u64>::builder();
+        if let Some(c) = cap {
+            b = b.max_capacity(c);
+        }
+        if expire == 2 {
+            b = b.time_to_live(Duration::from_millis(1));
+        }
+        let cache = b.build_with_hasher(VBuildHasher(HashKind::Mix));
+        HOLD.store(true, Ordering::SeqCst);
+        PARKED.store(false, Ordering::SeqCst);
+        let holder = {
+            let c = cache.clone();
+            std::thread::spawn(move || {
+                FOREIGN.with(|h| h.set(0));
+                PARK_AT.with(|p| p.set(park_at));
+                LEAVE.with(|l| l.set(false));
+                INJECT_HOOK.with(|h| h.set(Some(stall_hook)));
+                let left = || LEAVE.with(|l| l.get());
+                let own = |k: u64| OWN_KEY.with(|o| o.set(k));
+                let mut calls = 0u64;
+                for k in 0..prefill {
+                    own(k);
+                    c.insert(VKey(k), k);
+                    calls += 1;
+                    if left() {
+                        break;
+                    }
+                }
+                if !left() && expire == 1 {
+                    c.invalidate_all();
+                }
+                if !left() && expire == 2 {
+                    std::thread::sleep(Duration::from_millis(3));
+                }
+                // reads of a missing key until one of them runs the housekeeping (at the latest
+                // when the read log reaches its flush point) and the maintenance hashes a key
+                READING.with(|c| c.set(true));
+                for _ in 0..200 {
+                    if left() {
+                        break;
+                    }
+                    own(999_999);
+                    c.get(&VKey(999_999));
+                    calls += 1;
+                }
+                READING.with(|c| c.set(false));
+                INJECT_HOOK.with(|h| h.set(None));
+                PARKED.store(true, Ordering::SeqCst); // never parked: the maintenance hashed fewer keys
+                (left(), calls, FOREIGN.with(|h| h.get()))
+            })
+        };
+        let t0 = Instant::now();
+        while !PARKED.load(Ordering::SeqCst) && t0.elapsed() < Duration::from_secs(5) {
+            std::thread::sleep(Duration::from_micros(100));
+        }
+        let progress = Arc::new(AtomicU64::new(0));
+        let done = Arc::new(AtomicU64::new(0));
+        let mut wh = Vec::new();
+        for w in 0..nwriters {
+            let c = cache.clone();
+            let pr = Arc::clone(&progress);
+            let dn = Arc::clone(&done);
+            wh.push(std::thread::spawn(move || {
+                for i in 0..per_writer {
+                    let k = 1_000_000 * (w as u64 + 1) + i;
+                    if i % 7 == 3 {
+                        c.invalidate(&VKey(k - 1));
+                    } else {
+                        c.insert(VKey(k), i);
+                    }
+                    pr.fetch_add(1, Ordering::SeqCst);
+                }
+                dn.fetch_add(1, Ordering::SeqCst);
+            }));
+        }
+        // let the writers run until they finish or stop making progress
+        let mut last = 0u64;
+        let mut last_change = Instant::now();
+        let t1 = Instant::now();
+        loop {
+            let p = progress.load(Ordering::SeqCst);
+            if p != last {
+                last = p;
+                last_change = Instant::now();
+            }
+            if done.load(Ordering::SeqCst) == nwriters as u64
+                || last_change.elapsed() > Duration::from_millis(40)
+                || t1.elapsed() > Duration::from_secs(5)
+            {
+                break;
+            }
+            std::thread::sleep(Duration::from_micros(500));
+        }
+        let stalled_at = progress.load(Ordering::SeqCst);
+        let finished_before = done.load(Ordering::SeqCst);
+        HOLD.store(false, Ordering::SeqCst);
+        let (parked, calls, foreign) = holder.join().unwrap();
+        // the holder has left; the writers must get through on their own
+        let t2 = Instant::now();
+        while done.load(Ordering::SeqCst) < nwriters as u64 && t2.elapsed() < Duration::from_secs(10) {
+            std::thread::sleep(Duration::from_millis(1));
+        }
+        let ok = done.load(Ordering::SeqCst) == nwriters as u64;
+        if ok {
+            for h in wh {
+                h.join().unwrap();
+            }
+        } else {
+            writeln!(
+                out,
+                "stall-bad prefill={} expire={} cap={:?} holder parked in its call #{} at the {}th key hashed by the maintenance; writers={}x{}: after the holder left, {} of {} writers are still blocked at {} completed operations",
+                prefill, expire, cap, calls, park_at, nwriters, per_writer,
+                nwriters as u64 - done.load(Ordering::SeqCst), nwriters, progress.load(Ordering::SeqCst)
+            )
+            .unwrap();
+            // the blocked threads cannot be joined; they are left behind
+        }
+        writeln!(
+            out,
+            "stall round={} parked={} holder_calls={} maint_hashes={} expire={} stalled_at={} of {} finished_before_release={} bad={}",
+            r, parked, calls, foreign, expire, stalled_at, nwriters as u64 * per_writer, finished_before, if ok { 0 } else { 1 }
+        )
+        .unwrap();
+    }
+}
